@@ -10,6 +10,7 @@ structure Mid (cfg : Cfg) (s : State) : Prop where
   cap : s.c.numInitializers ≤ cfg.capacity
   occupied : (liveL s.slots).length + s.c.numVacancies = cfg.slots
   active : s.c.numActive = cfg.slots - s.c.numVacancies
+  status : ∀ x ∈ s.slots, x.stepOk ∨ x.status = .errored
 
 theorem it_spec_none {cfg : Cfg} {s : State} (hord : cfg.order ≠ .initCharge) (hL : Lens cfg s)
     (hC : Core s s.c.numInitializers) (hcap : s.c.numInitializers ≤ cfg.capacity)
@@ -53,7 +54,7 @@ theorem it_spec_none {cfg : Cfg} {s : State} (hord : cfg.order ≠ .initCharge) 
       (initTrack s.c (min s.c.numVacancies s.c.numInitializers)) s = s2 at hloop
     obtain ⟨e1, e2, e3, e4, e5, e6, e7, e8, e9⟩ := hloop.same
     refine ⟨⟨⟨hloop.lens.cfg_eq, hloop.lens.slots, hloop.lens.inits, hloop.lens.parents,
-      hloop.lens.secCounts, hloop.lens.counters⟩, ?_, ?_, ?_, ?_⟩, ?_, ?_, e4, ?_⟩
+      hloop.lens.secCounts, hloop.lens.counters⟩, ?_, ?_, ?_, ?_, hloop.status⟩, ?_, ?_, e4, ?_⟩
     · simp only [e3]
       exact core_frame hloop.core rfl rfl rfl rfl rfl rfl hloop.core.hasId
     · simp only [e3]; omega
@@ -68,7 +69,8 @@ theorem it_spec_none {cfg : Cfg} {s : State} (hord : cfg.order ≠ .initCharge) 
   · have hz : min s.c.numVacancies s.c.numInitializers = 0 := by omega
     simp only [hn, if_false]
     refine ⟨⟨⟨hL.cfg_eq, hL.slots, hL.inits, hL.parents, hL.secCounts, hL.counters⟩,
-      core_frame hC rfl rfl rfl rfl rfl rfl hC.hasId, hcap, hocc, by simp [hL.cfg_eq]⟩,
+      core_frame hC rfl rfl rfl rfl rfl rfl hC.hasId, hcap, hocc, by simp [hL.cfg_eq],
+      fun x hx => Or.inl (hst x hx)⟩,
       by simp [hz], by simp [hz], by trivial, by trivial⟩
 
 end CelerVerif.TrackInit
